@@ -11,6 +11,12 @@
 (*           the specification predicts are sent to s                      *)
 (* queue[s]  updates of sel[s] not yet sent to s (SessionTracker.queue)    *)
 (* idle[s]   s is between "+ idling" and DONE                              *)
+(* held[s]   s's client has stopped reading (STALL: a NOOP whose responses *)
+(*           the server cannot write): the updates Conn.poll has TAKEN     *)
+(*           from queue[s] and is blocked writing; they reach the client,  *)
+(*           unchanged and in order, when it reads again (RESUME), whatever*)
+(*           the other sessions did in between (their updates are queued   *)
+(*           behind: taking the queue and writing it are two steps)        *)
 (* out[s]    normalised responses sent to s in the LAST step (observation) *)
 (* pre[s]    view[s] before the last step; last = the last command (ghosts *)
 (*           over which the five clauses of C08 are stated)                *)
@@ -56,8 +62,8 @@ CONSTANTS Sessions, Mailboxes,
           IdleAny     \* TRUE: any prefix may reach an idling session at any step;
                       \* FALSE: exactly the woken sessions receive everything
 
-VARIABLES mb, sel, view, queue, idle, out, pre, last
-vars == <<mb, sel, view, queue, idle, out, pre, last>>
+VARIABLES mb, sel, view, queue, idle, held, out, pre, last
+vars == <<mb, sel, view, queue, idle, held, out, pre, last>>
 
 None == "none"
 Inf  == 1000000      \* "n:*" of UID EXPUNGE (imap.UIDSet.Contains: every uid >= n)
@@ -237,11 +243,14 @@ Q1(t, disp) ==
   IN  queue[t] \o [k \in 1..Len(f) |-> f[k].u]
 
 IdleCmd(c) == c.k \in {"IDLE", "DONE"}
+NotHeld == [on |-> FALSE, items |-> <<>>]
 EffOf(s, c, lat) ==
   IF IdleCmd(c)
   THEN [mb2 |-> mb, disp |-> <<>>, res |-> <<>>, flush |-> IF c.k = "DONE" THEN "all" ELSE "none",
         status |-> IF c.k = "DONE" THEN "ok" ELSE "cont", reset |-> "keep"]
-  ELSE Eff(s, c, lat)
+  ELSE IF c.k = "RESUME"      \* the blocked writes go through; the completion follows the poll at once
+  THEN [mb2 |-> mb, disp |-> <<>>, res |-> <<>>, flush |-> "none", status |-> "ok", reset |-> "keep"]
+  ELSE Eff(s, c, lat)         \* STALL is a NOOP (what differs is where its output goes: Result)
 
 LatsEff(s, c) ==
   LET L == {lat \in Lats(s, c) :
@@ -267,12 +276,16 @@ DlChoices(s, c, lat) ==
 Result(s, c, lat, dl) ==
   LET e  == EffOf(s, c, lat)
       q1 == [t \in Sessions |-> Q1(t, e.disp)]
-      emit == [t \in Sessions |->
+      taken == [t \in Sessions |->          \* removed from the queue in this step
                  IF t = s THEN (CASE e.flush = "all"   -> q1[s]
                                   [] e.flush = "noexp" -> NoExpPrefix(q1[s])
                                   [] OTHER -> <<>>)
                  ELSE IF t \in Idlers(s) THEN SubSeq(q1[t], 1, dl[t])
                  ELSE <<>>]
+      emit == [t \in Sessions |->           \* written to the client in this step
+                 IF t = s /\ c.k = "STALL" THEN <<>>
+                 ELSE IF t = s /\ c.k = "RESUME" THEN held[s].items
+                 ELSE taken[t]]
       keep == e.reset = "keep"
       newsel == IF keep THEN sel[s] ELSE IF e.reset = "close" THEN None ELSE e.reset
       hello == IF keep \/ e.reset = "close" THEN <<>>
@@ -281,32 +294,35 @@ Result(s, c, lat, dl) ==
       sel   |-> [sel EXCEPT ![s] = newsel],
       queue |-> [t \in Sessions |->
                    IF t = s /\ ~keep THEN <<>>
-                   ELSE SubSeq(q1[t], Len(emit[t]) + 1, Len(q1[t]))],
+                   ELSE SubSeq(q1[t], Len(taken[t]) + 1, Len(q1[t]))],
       view  |-> [t \in Sessions |->
                    IF t = s /\ ~keep THEN ApplyAll(<<>>, hello)
                    ELSE ApplyAll(view[t], emit[t])],
       idle  |-> [idle EXCEPT ![s] = IF c.k = "IDLE" THEN TRUE ELSE IF c.k = "DONE" THEN FALSE ELSE @],
+      held  |-> [held EXCEPT ![s] = IF c.k = "STALL" THEN [on |-> TRUE, items |-> taken[s]] ELSE NotHeld],
       out   |-> [t \in Sessions |->
-                   IF t = s THEN (IF keep THEN e.res \o emit[s] ELSE hello) \o <<UStatus(e.status)>>
+                   IF t = s /\ c.k = "STALL" THEN <<>>      \* not even the completion gets out
+                   ELSE IF t = s THEN (IF keep THEN e.res \o emit[s] ELSE hello) \o <<UStatus(e.status)>>
                    ELSE emit[t]],
       pre   |-> [t \in Sessions |-> IF t = s /\ ~keep THEN <<>> ELSE view[t]],
       last  |-> [s |-> s, k |-> c.k, uid |-> c.uid]]
 
 DoR(r) ==
   /\ mb' = r.mb /\ sel' = r.sel /\ queue' = r.queue /\ view' = r.view
-  /\ idle' = r.idle /\ out' = r.out /\ pre' = r.pre /\ last' = r.last
+  /\ idle' = r.idle /\ held' = r.held /\ out' = r.out /\ pre' = r.pre /\ last' = r.last
 Do(s, c, lat, dl) == DoR(Result(s, c, lat, dl))
 
 \* commands a session may issue in its current state
 Commands(s) ==
   IF idle[s] THEN {C0("DONE")}
+  ELSE IF held[s].on THEN {c \in {C0("RESUME")} : c.k \in Kinds}
   ELSE
    LET sets(u) == IF u THEN UidSets ELSE SeqSets
        anyst == {C0("NOOP")}
                 \cup {Cmd("APPEND", FALSE, <<>>, m, "", f, "") : m \in AppendBoxes, f \in AppendFlags}
                 \cup {Cmd("SELECT", FALSE, <<>>, m, "", {}, "") : m \in Mailboxes}
        selst == IF sel[s] = None THEN {} ELSE
-                {C0("EXPUNGE"), C0("CLOSE"), C0("UNSELECT"), C0("IDLE")}
+                {C0("EXPUNGE"), C0("CLOSE"), C0("UNSELECT"), C0("IDLE"), C0("STALL")}
                 \cup UNION {{Cmd("FETCH", u, x, None, "", {}, "") : x \in sets(u)} : u \in UidForms}
                 \cup UNION {{Cmd("STORE", u, x, None, op, {f}, "") : x \in sets(u), op \in StoreOps, f \in Flags}
                                : u \in UidForms}
@@ -326,6 +342,7 @@ Init ==
   /\ view = [s \in Sessions |-> <<>>]
   /\ queue = [s \in Sessions |-> <<>>]
   /\ idle = [s \in Sessions |-> FALSE]
+  /\ held = [s \in Sessions |-> NotHeld]
   /\ out = [s \in Sessions |-> <<>>]
   /\ pre = [s \in Sessions |-> <<>>]
   /\ last = [s |-> None, k |-> "init", uid |-> FALSE]
@@ -341,7 +358,8 @@ Bounded == /\ \A m \in Mailboxes : Len(mb[m].msgs) <= MaxMsgs /\ mb[m].next <= M
 \* ---------------------------------------------------- properties (C08)
 TypeOK ==
   /\ \A s \in Sessions : sel[s] \in Mailboxes \cup {None}
-  /\ \A s \in Sessions : sel[s] = None => view[s] = <<>> /\ queue[s] = <<>> /\ ~idle[s]
+  /\ \A s \in Sessions : sel[s] = None => view[s] = <<>> /\ queue[s] = <<>> /\ ~idle[s] /\ held[s] = NotHeld
+  /\ \A s \in Sessions : ~(idle[s] /\ held[s].on) /\ (~held[s].on => held[s].items = <<>>)
   /\ \A m \in Mailboxes : \A i, j \in 1..Len(mb[m].msgs) :
         i < j => mb[m].msgs[i].uid < mb[m].msgs[j].uid /\ mb[m].msgs[j].uid < mb[m].next
 
@@ -390,11 +408,12 @@ WellFormed(v, us) ==
        /\ WellFormed(ApplyOne(v, u), Tail(us))
 RemovedReportedOnce ==
   \A s \in Sessions : sel[s] # None =>
-     /\ WellFormed(view[s], queue[s])
-     /\ ApplyAll(view[s], queue[s]) = UidsOf(mb[sel[s]].msgs)
+     /\ WellFormed(view[s], held[s].items \o queue[s])
+     /\ ApplyAll(view[s], held[s].items \o queue[s]) = UidsOf(mb[sel[s]].msgs)
      /\ \A i, j \in 1..Len(view[s]) : view[s][i] = view[s][j] => i = j
 
-\* (5) after NOOP the reconstructed list is the mailbox
+\* (5) after NOOP the reconstructed list is the mailbox (a NOOP whose responses the client took its time to
+\* read - STALL ... RESUME - synchronises with the mailbox as it was when the server took the pending updates)
 NoopSynchronises ==
   (last.k = "NOOP" /\ sel[last.s] # None)
      => view[last.s] = UidsOf(mb[sel[last.s]].msgs) /\ queue[last.s] = <<>>
@@ -406,7 +425,7 @@ StepSeqNums   == [][SeqNumsWithinAnnounced']_vars
 StepNoExpunge == [][NoExpungeDuringNonUid']_vars
 StepShrink    == [][CountShrinksOnlyByExpunge']_vars
 StepNoop      == [][NoopSynchronises']_vars
-CoreView == <<mb, sel, view, queue, idle>>
+CoreView == <<mb, sel, view, queue, idle, held>>
 
 \* ------------------------------------------------ observable form of items
 \* what of an item is observable on the wire (compact tuples shared with the harness)
@@ -421,7 +440,7 @@ NormOut(us) == [i \in 1..Len(us) |-> NormItem(us[i])]
 
 \* ------------------------------------------------ bounded instances (cfg)
 AllKinds == {"NOOP", "APPEND", "SELECT", "UNSELECT", "CLOSE", "FETCH", "STORE", "SEARCH",
-             "EXPUNGE", "UIDEXPUNGE", "COPY", "MOVE", "IDLE", "DONE"}
+             "EXPUNGE", "UIDEXPUNGE", "COPY", "MOVE", "IDLE", "DONE", "STALL", "RESUME"}
 Sets2     == {One(1), <<R(0, 0)>>}                                            \* 1  *
 Sets3     == {One(1), One(2), <<R(0, 0)>>}                                    \* 1  2  *
 SetsSmall == Sets3 \cup {<<R(1, 0)>>, <<R(2, 0)>>}                            \* + 1:*  2:*
@@ -444,5 +463,6 @@ KUid     == KBase \cup {"UIDEXPUNGE", "STORE", "FETCH"}
 KSearch  == KBase \cup {"SEARCH", "EXPUNGE"}
 KIdle    == {"APPEND", "SELECT", "IDLE", "DONE", "EXPUNGE", "MOVE"}
 KIdleQ   == {"APPEND", "SELECT", "IDLE", "DONE", "EXPUNGE", "STORE"}
+KSlow    == {"APPEND", "SELECT", "STORE", "EXPUNGE", "NOOP", "STALL", "RESUME"}
 KClose   == KBase \cup {"CLOSE", "UNSELECT", "FETCH"}
 =============================================================================
